@@ -249,6 +249,8 @@ var responseSpecs = []layerSpec{
 			"Instantaneous": {"{d1[7:0],d0[7:0]}"}, "Min": {"{d3[7:0],d2[7:0]}"}, "Max": {"{d5[7:0],d4[7:0]}"}, "Avg": {"{d7[7:0],d6[7:0]}"},
 			"Period": {"lin(1000000·{d15[7:0],d14[7:0],d13[7:0],d12[7:0]})"}, "Active": {"d16[6]"},
 		}},
+	{Pkg: "pkg/ipmi", Type: "GetChannelCipherSuitesRsp", Method: "DecodeFromBytes", Ref: "IPMI v2.0 §22.15 (channel number, then up to 16 bytes of cipher suite record data, verbatim)",
+		Want: map[string][]string{"Channel": {"d0[7:0]"}, "CipherSuiteRecordsChunk": {"d[1:17]", "d[1:+len(data) -1]"}}},
 	{Pkg: "pkg/dcmi", Type: "GetDCMISensorInfoRsp", Method: "DecodeFromBytes", Ref: "DCMI 1.5 §6.5.2",
 		Want: map[string][]string{"Instances": {"d0[7:0]"}, "BaseLayer.Contents": {"d[0:+2·d1[7:0] +2]"}}},
 	{Pkg: "pkg/dcmi", Type: "getDCMICapabilitiesInfoRspHeader", Method: "Decode", Ref: "DCMI 1.5 §6.1.1",
@@ -289,6 +291,22 @@ var shapedRequestSpecs = []layerSpec{
 		Want: msgCommon(map[string][]string{"len pre": {"9"}, "pre[6]": {"f:Operation.Enterprise[7:0]"}, "pre[7]": {"f:Operation.Enterprise[15:8]"}, "pre[8]": {"f:Operation.Enterprise[23:16]"}})},
 	{Pkg: "pkg/ipmi", Type: "Message", Method: "SerializeTo", Shape: "response", Ints: map[string]int64{"Operation.Function": 0x07}, Widths: msgWidths, Ref: "IPMI v2.0 §13.8",
 		Want: msgCommon(map[string][]string{"len pre": {"7"}, "pre[6]": {"f:CompletionCode[7:0]"}})},
+}
+
+// twoWayDecoderSpecs / v1SerialiserSpecs: the directions of the two-way layers the request and
+// response tables do not cover — the decoder of RAKP Message 1 and the v1.5 wrapper's
+// serialiser (its length byte is the length of what it wraps, nothing else).
+var twoWayDecoderSpecs = []layerSpec{
+	{Pkg: "pkg/ipmi", Type: "RAKPMessage1", Method: "DecodeFromBytes", Ref: "IPMI v2.0 §13.20",
+		Want: map[string][]string{"Tag": {"d0[7:0]"}, "ManagedSystemSessionID": {"{d7[7:0],d6[7:0],d5[7:0],d4[7:0]}"}, "RemoteConsoleRandom": {"copy(d[8:24])"},
+			"MaxPrivilegeLevel": {"d24[3:0]"}, "PrivilegeLevelLookup": {"!d24[4]"}, "Username": {"d[28:+d27[7:0]]"}}},
+}
+
+var v1SerialiserSpecs = []layerSpec{
+	{Pkg: "pkg/ipmi", Type: "V1Session", Method: "SerializeTo", Shape: "no auth code", Ints: map[string]int64{"AuthType": 0}, Ref: "IPMI v2.0 §13.6 (v1.5 format): payload length = length of the IPMI message that follows",
+		Want: map[string][]string{"len pre": {"10"}, "pre[0]": {"f:AuthType[7:0]"}, "pre[9]": {"f:Length[7:0]", "lin(wrap8(len(buffer)))"}}},
+	{Pkg: "pkg/ipmi", Type: "V1Session", Method: "SerializeTo", Shape: "with auth code", Ints: map[string]int64{"AuthType": 2}, Ref: "IPMI v2.0 §13.6 (v1.5 format)",
+		Want: map[string][]string{"len pre": {"26"}, "pre[0]": {"f:AuthType[7:0]"}, "pre[25]": {"f:Length[7:0]", "lin(wrap8(len(buffer)))"}, "pre[9:25]": {"copy(f:AuthCode[0:16])"}}},
 }
 
 var v2Widths = map[string]int{"PayloadDescriptor.PayloadType": 6}
